@@ -192,10 +192,12 @@ Definition flush (s : st) : st :=
 
 (* ---------- close and reopen ---------- *)
 
-(* loadSSTables: directory order = file name order = (level, number, timestamp) *)
+(* loadSSTables (as repaired by deebfc9): tables ordered by age — deeper levels hold older
+   data than shallower ones, inside a level the creation timestamp of the file name decides
+   (the file number is not an age: it restarts at 1 on every open). Get scans the list from
+   the last element to the first. *)
 Definition sst_le (a b : sst) : bool :=
-  if s_level a <? s_level b then true else if s_level b <? s_level a then false else
-  if s_num a <? s_num b then true else if s_num b <? s_num a then false else
+  if s_level b <? s_level a then true else if s_level a <? s_level b then false else
   s_ts a <=? s_ts b.
 
 Fixpoint sst_insert (x : sst) (l : list sst) : list sst :=
